@@ -62,10 +62,12 @@ def pristine():
     fek_other = {'filter_kwargs': {'print_transitions': False}}
     p, t = find_extrema(sig, FS, FR)
     r, d = find_zerox(sig, p, t)
+    sigz = S.word_signal('aaazzzzaaa')            # a gated recording: cycles lying entirely inside an exact-zero stretch
+    dfz = compute_shape_features(sigz, FS, FR)
     bufA = S.word_signal('aadaaazzaaaadaan')
     bufB = 2.0 * S.word_signal('bbnbbdabbbzbbeaa') + 1.0
     buf = np.zeros(len(bufA))
-    return dict(buf=buf, bufA=bufA, bufB=bufB, dfnb=dfnb, bk8=bk8, dfs_off=dfs_off, dfc_off=dfc_off, fek_empty=fek_empty, fek_other=fek_other, sig=sig, thr=thr, thra=thra, thram=thram, bk=bk, bkm=bkm, bkfull=bkfull, fek=fek, sigs2=sigs2, sigs3=sigs3,
+    return dict(sigz=sigz, dfz=dfz, buf=buf, bufA=bufA, bufB=bufB, dfnb=dfnb, bk8=bk8, dfs_off=dfs_off, dfc_off=dfc_off, fek_empty=fek_empty, fek_other=fek_other, sig=sig, thr=thr, thra=thra, thram=thram, bk=bk, bkm=bkm, bkfull=bkfull, fek=fek, sigs2=sigs2, sigs3=sigs3,
                 cfk=cfk, cfka=cfka, cfkl=cfkl, cfkl2=cfkl2, dfc=dfc, dft=dft, dfa=dfa, dfs=dfs, p=p, t=t, r=r, d=d)
 
 
@@ -75,6 +77,33 @@ def _expect_raise(f):
     except ValueError as e:
         return 'ValueError'
     return 'returned'
+
+
+def _fresh_str(v):
+    """An equal string that is a different (non-interned) object, as read from a config file or received by a worker process."""
+    return bytes(v, 'ascii').decode('ascii')
+
+
+def _twin(obj):
+    """Equal-valued reconstruction of an option structure: every dict, tuple and string is a new object."""
+    if isinstance(obj, dict):
+        return {_fresh_str(k): _twin(v) for k, v in obj.items()}
+    if isinstance(obj, (list, tuple)):
+        return type(obj)(_twin(v) for v in obj)
+    if isinstance(obj, str):
+        return _fresh_str(obj)
+    return copy.deepcopy(obj)
+
+
+TWINS = {'cf_trough_tw': 'cf_trough', 'cf_amp_tw': 'cf_amp', 'shape_t_tw': 'shape_t', 'h_rename_tw': 'h_rename', '2d_dict_tw': '2d_dict',
+         '2d_none_tw': '2d_none'}
+
+
+def poison(v):
+    """Fill numpy's small-block cache with blocks holding the value v, so that a result that reads uninitialised memory
+    (np.empty not fully written) depends on v - the harness varies v with the position of the call in the history."""
+    a = [np.full(n, v) for n in range(1, 129) for _ in range(7)]
+    del a
 
 
 def alphabet():
@@ -90,6 +119,21 @@ def alphabet():
     from bycycle.plts import (plot_burst_detect_summary, plot_burst_detect_param, plot_cyclepoints_df,
                               plot_cyclepoints_array, plot_feature_hist, plot_feature_categorical)
     A = {
+        # tables with cycles inside an exact-zero stretch (all voltage ratios 0/0)
+        'ampcons_z': lambda s: compute_amp_consistency(s['dfz']),
+        'percons_z': lambda s: compute_period_consistency(s['dfz']),
+        'burstfeat_z': lambda s: compute_burst_features(s['dfz'], s['sigz']),
+        'cf_z': lambda s: compute_features(s['sigz'], FS, FR, threshold_kwargs=s['thr']),
+        # TWINS: the same call with equal-valued but distinct argument objects (strings built at run time, options after a pickle
+        # round trip, the array copied): the result depends on argument VALUES only
+        'cf_trough_tw': lambda s: compute_features(s['sig'].copy(), int(str(FS)), tuple(float(v) for v in FR), center_extrema=_fresh_str('trough'),
+                                                   threshold_kwargs=_twin(s['thr'])),
+        'cf_amp_tw': lambda s: compute_features(s['sig'].copy(), FS, FR, burst_method=_fresh_str('amp'), threshold_kwargs=_twin(s['thra']),
+                                                burst_kwargs=_twin(s['bk'])),
+        'shape_t_tw': lambda s: compute_shape_features(s['sig'].copy(), FS, FR, center_extrema=_fresh_str('trough')),
+        'h_rename_tw': lambda s: rename_extrema_df(_fresh_str('trough'), s['dfc'].copy()),
+        '2d_dict_tw': lambda s: compute_features_2d(s['sigs2'].copy(), FS, FR, _twin(s['cfk']), axis=0, n_jobs=2),
+        '2d_none_tw': lambda s: compute_features_2d(s['sigs2'].copy(), FS, FR, _twin(s['cfk']), axis=None),
         'cf_cycles': lambda s: compute_features(s['sig'], FS, FR, threshold_kwargs=s['thr'], find_extrema_kwargs=s['fek']),
         'cf_trough': lambda s: compute_features(s['sig'], FS, FR, center_extrema='trough', threshold_kwargs=s['thr']),
         'cf_amp': lambda s: compute_features(s['sig'], FS, FR, burst_method='amp', threshold_kwargs=s['thra'], burst_kwargs=s['bk']),
@@ -170,13 +214,13 @@ def alphabet():
     return A
 
 
-NAMES = ['h_rename_nosamp', 'h_rename', 'h_split', 'h_flatten', 'h_detect_c', 'h_detect_a', 'h_minrun', 'burstfeat_c_off', 'edges_off',
+NAMES = ['ampcons_z', 'percons_z', 'burstfeat_z', 'cf_z', 'cf_trough_tw', 'cf_amp_tw', 'shape_t_tw', 'h_rename_tw', '2d_dict_tw', '2d_none_tw', 'h_rename_nosamp', 'h_rename', 'h_split', 'h_flatten', 'h_detect_c', 'h_detect_a', 'h_minrun', 'burstfeat_c_off', 'edges_off',
          'limit_off', 'epoch_off', 'mono_off', 'cf_fek_empty', 'shape_fek_other', 'extrema_fk_empty', 'cf_fail_t', 'cf_fail_amp', 'shape_fail_t', 'amp_buf_A', 'amp_buf_B', 'cf_default', 'cf_default_t', 'cf_amp_default', 'cf_amp_nothr_m8', 'edges_noburst', 'cf_buf_A', 'cf_buf_B', 'shape_buf_B', 'cf_cycles', 'cf_trough', 'cf_amp', 'cf_amp_m', 'cf_amp_t', 'cf_nosamp', 'shape', 'shape_t', 'cyclepoints',
          'burstfeat_c', 'burstfeat_a', 'ampfrac', 'ampcons', 'percons', 'mono', 'bfrac', 'extrema', 'zerox', 'phase',
          '2d_dict', '2d_amp', '2d_list', '2d_none', '2d_none_list', '3d', '3d_1', '3d01', 'edges', 'edges_t', 'limit',
          'limit_t', 'epoch', 'epoch_t', 'drop', 'plt_summary', 'plt_summary_t', 'plt_summary_a', 'plt_param', 'plt_cpdf',
          'plt_cparr', 'plt_hist', 'plt_cat']
-CORE = ['h_rename_nosamp', 'burstfeat_c_off', 'cf_fek_empty', 'cf_fail_t', 'cf_default', 'cf_amp_nothr_m8', 'edges_noburst', 'cf_buf_A', 'cf_buf_B',
+CORE = ['ampcons_z', 'cf_trough_tw', 'h_rename_nosamp', 'burstfeat_c_off', 'cf_fek_empty', 'cf_fail_t', 'cf_default', 'cf_amp_nothr_m8', 'edges_noburst', 'cf_buf_A', 'cf_buf_B',
         'cf_amp_m', '2d_none_list', 'limit_t']
 REF = {}          # call name -> fingerprint hash of its fresh-state result (filled before the workers are forked)
 
@@ -202,8 +246,9 @@ def run_history(hist):
     f0 = state_fp(s)
     base = {k: fingerprint(v) for k, v in s.items() if k != 'buf'}
     steps = []
-    for name in hist:
+    for step, name in enumerate(hist):
         np.random.seed(0)
+        poison(1.25 * (step + 1))
         try:
             r = A[name](s)
             rf, err = result_fp(r), None
@@ -234,6 +279,10 @@ def evaluate(case):
                         'call %s modified the caller\'s %s (history %s)' % (st['call'], sorted(st['state_changed']), hist[:i + 1]),
                         observed=hist)
         if REF.get(st['call']) is not None and st['result'] != REF[st['call']]:
+            if st['call'] in TWINS and i == 0:
+                return VIOL({'kind': 'object-identity-dependence', 'call': st['call']},
+                            'call %s (equal-valued but distinct argument objects) does not reproduce the fresh-state result of %s'
+                            % (st['call'], TWINS[st['call']]), observed=hist)
             return VIOL({'kind': 'history-dependence', 'call': st['call'], 'after': hist[:i]},
                         'result of %s after %s differs from its fresh-state result' % (st['call'], hist[:i]), observed=hist)
     return OK(outcome=tuple(hist), nontrivial=len(hist) >= 2, evals=len(hist))
@@ -250,6 +299,8 @@ def spaces(tier, seed):
             status, steps = run_in_child(run_history, ([name],), timeout=240)
             if status == 'ok' and steps and steps[0]['result'] != REF[name] and REF[name] is not None:
                 raise RuntimeError('fresh-state result of %s is not reproducible' % name)
+        for tw, orig in TWINS.items():
+            REF[tw] = REF[orig]          # a twin must reproduce the result of the call it mirrors
     out = [ProductSpace('histories<=2', [NAMES] * 2, evaluate, min_len=1, split_depth=2,
                         describe='every history of 1 or 2 calls over the %d-call alphabet on shared argument objects' % len(NAMES),
                         bounds={'alphabet': NAMES})]
